@@ -118,6 +118,21 @@ PROPS = {
         trusted_base=[SDK_TRUST, "calendar arithmetic (time.AddDate) is taken from the Go side as an input of the op line; the SDK's half-even rounding of vesting at 18 decimals is modelled"],
         assumptions=["'only by the licensed address itself' is proved in the form the ante chain implements: the signer is the licensee or an address the licensee issued a fee grant to"],
     ),
+    "C09": dict(
+        lean_modules=["PalomaModel.Props.C09"], gen=["Panics.lean"],
+        harness_test="TestC09",
+        n_quick=6, n_thorough=6, thorough_seeds=4, timeout_quick=900, timeout_thorough=5000, env_thorough={"VERIF_BLOCKS": "10100"},
+        spec_ops=["block"],
+        level_text="PARTIAL. Lean 4 theorems: the fee arithmetic on the end-block path is total with explicit error outcomes for every multiplicator (missing, negative, astronomically large) and estimate, and — by decide over the inventory "
+                   "regenerated from the typed source on every run (call-graph reachability from every module's Begin/EndBlock, stopping at functions that install a recover) — every explicit panic, Must* call, narrowing sdkmath conversion, sdkmath division, "
+                   "unchecked type assertion and slice-to-array conversion on the block path is a harmless kind or individually justified. Panics inside the SDK / wasm / IBC and resource exhaustion are outside the inventory: the full application is fuzzed with hostile values "
+                   "at every height class and FinalizeBlock must never err or panic.",
+        rule="full application with an active EVM chain; per case a PRNG history up to height 330 (thorough: 10100) with jumps to just before multiples of 10 / 50 / 300 / 303 / 10000: logic calls enqueued with sender lengths 1/20/32 and payloads up to 70 kB, "
+             "gas estimates 0 / 1 / 2^63 / 2^64-1 from every validator, relayer-fee upserts with omitted / negative / 10^30 / 2^128 multiplicators, status updates with unknown levels, tokenfactory and bank traffic, creator/signer mismatches; "
+             "distinct = distinct histories; non-trivial = at least one message reached the consensus queue",
+        trusted_base=[SDK_TRUST, "only Paloma's own packages are walked by the inventory; interface calls are resolved conservatively by method name and implemented interface"],
+        assumptions=["bonded stake stays below 2^63 ugrain (bounded by the bond-denom supply)"],
+    ),
 }
 
 LEVEL_TEXT = ("Lean 4 theorems (all inputs / histories / fault points, no bounds) about an executable model of the code; the model is tied to the Go code on "
